@@ -53,10 +53,11 @@ fn build(kind: &str, n: usize, seed: u64) -> Vec<u8> {
     }
 }
 
-/// returns (result, cpu seconds, bytes handed to the parser)
-fn run_once(input: &[u8], handlers: u8, nsel: usize, chunk: usize) -> (String, f64, u64) {
+/// returns (result, cpu seconds, bytes handed to the parser, handler-vector items visited)
+fn run_once(input: &[u8], handlers: u8, nsel: usize, chunk: usize) -> (String, f64, u64, u64) {
     let t0 = cpu_now();
     let w0 = lol_html::verif_hooks::parsed_bytes();
+    let s0 = lol_html::verif_hooks::handler_steps();
     let mut out = 0usize;
     let mut settings = Settings::new().with_memory_settings(MemorySettings::new().with_max_allowed_memory_usage(64 << 20));
     if handlers >= 1 {
@@ -72,6 +73,17 @@ fn run_once(input: &[u8], handlers: u8, nsel: usize, chunk: usize) -> (String, f
         }));
         settings = settings.append_element_content_handler(text!("div b", |_t| Ok(())));
     }
+    if handlers >= 3 {
+        // every open element asks for end-tag work (run-time handler vector as deep as the nesting; seeded S-C15-3)
+        settings = settings.append_element_content_handler(element!("*", |e| {
+            if e.can_have_content() {
+                e.after("", lol_html::html_content::ContentType::Html);
+                e.append("", lol_html::html_content::ContentType::Html);
+                let _ = e.on_end_tag(lol_html::end_tag!(|_t| Ok(())));
+            }
+            Ok(())
+        }));
+    }
     for i in 0..nsel {
         let sel = format!("div.c{i} > b:nth-child({}) a[x^=\"v{i}\"]", i % 7 + 1);
         settings = settings.append_element_content_handler(element!(sel, |_e| Ok(())));
@@ -81,13 +93,13 @@ fn run_once(input: &[u8], handlers: u8, nsel: usize, chunk: usize) -> (String, f
     for ch in input.chunks(chunk) {
         if let Err(e) = rw.write(ch) {
             res = format!("err:{}", e.to_string().chars().take(24).collect::<String>().replace(' ', "_"));
-            return (res, cpu_now() - t0, lol_html::verif_hooks::parsed_bytes() - w0);
+            return (res, cpu_now() - t0, lol_html::verif_hooks::parsed_bytes() - w0, lol_html::verif_hooks::handler_steps() - s0);
         }
     }
     if let Err(e) = rw.end() {
         res = format!("err:{}", e.to_string().chars().take(24).collect::<String>().replace(' ', "_"));
     }
-    (res, cpu_now() - t0, lol_html::verif_hooks::parsed_bytes() - w0)
+    (res, cpu_now() - t0, lol_html::verif_hooks::parsed_bytes() - w0, lol_html::verif_hooks::handler_steps() - s0)
 }
 
 pub fn run(line: &str) -> String {
@@ -180,7 +192,7 @@ pub fn run(line: &str) -> String {
         }
         return format!("selfuzz {n} parsed={okc}/{total}");
     }
-    let handlers = (seed % 3) as u8;
+    let handlers = (seed % 4) as u8;
     let nsel = if kind == "manysel" { n.min(3000) / 10 } else { 0 };
     let shape = if kind == "manysel" { "nestclose" } else { kind };
     let small = build(shape, n, seed);
@@ -189,8 +201,8 @@ pub fn run(line: &str) -> String {
     let mut obs = format!("{kind} {n} h{handlers}");
     let bound = |len: usize| 2 * len as u64 + 4096;
     for input in [&small, &big] {
-        let (r_one, t_one, w_one) = run_once(input, handlers, nsel, usize::MAX);
-        let (r_ck, t_ck, w_ck) = run_once(input, handlers, nsel, 4096);
+        let (r_one, t_one, w_one, s_one) = run_once(input, handlers, nsel, usize::MAX);
+        let (r_ck, t_ck, w_ck, s_ck) = run_once(input, handlers, nsel, 4096);
         obs.push_str(&format!(" {r_one}/{r_ck}"));
         if std::env::var("PATHO_TIMES").is_ok() {
             eprintln!("{kind} len={} h{handlers} one: {t_one:.3}s work={w_one}  4KiB: {t_ck:.3}s work={w_ck}", input.len());
@@ -202,6 +214,16 @@ pub fn run(line: &str) -> String {
                 " ||ORACLE:C15:token-relex-across-writes {kind} len={} in 4 KiB writes hands {w_ck} bytes to the parser ({}x the input; one write: {w_one})",
                 input.len(),
                 w_ck / input.len().max(1) as u64
+            ));
+        }
+        // run-time handler vectors (end-tag handlers of open elements): finding / removing the active tail must cost
+        // no more than what is removed, so the total is bounded by the number of pushes (<= one per tag <= len / 3)
+        if s_one.max(s_ck) > bound(input.len()) && !oracle.contains("handler-vector-scan") {
+            oracle.push_str(&format!(
+                " ||ORACLE:C15:handler-vector-scan {kind} len={} h{handlers}: {} handler-vector items visited while closing elements ({}x the input)",
+                input.len(),
+                s_one.max(s_ck),
+                s_one.max(s_ck) / input.len().max(1) as u64
             ));
         }
         if t_one > 300.0 || t_ck > 300.0 {
